@@ -180,6 +180,37 @@ CLAIMED = {
         "checked too).",
         "Lean 4 proof (fold with raising callback) + fault enumeration at every cancellation point",
         "DESIGN.md §5 C20"),
+    "C13": (
+        "Lean 4 theorems about the slices1d model: every yielded pair is labelled with its higher coordinates in axis order "
+        "and is the well-formed one-axis index whose dense column is the column of the original at those coordinates, and "
+        "every combination is yielded (induction over the axes, via the bucket lemma); the stacked cube model stores, under "
+        "each concatenated label, the aggregate over exactly those slices, and every choice of slices has its block. "
+        "Tie/oracle: result shapes and every block of every aggregate on both cube types are compared on the real code with "
+        "the same aggregate over the 1-D slices; slices1d of the real code vs the model.",
+        "Trusted: as C03/C06; NumPy indexing of region[flattened_slice] is modelled as label association.",
+        "Lean 4 proof (slices1d by induction over axes; product membership) + block-wise comparison on the real code",
+        "DESIGN.md §5 C13"),
+    "C17": (
+        "Lean 4: a may-alias analysis over alias/fresh/write programs is proved sound w.r.t. a heap semantics (a program that "
+        "passes never changes a caller-owned buffer), and the programs are REGENERATED from the Python source of every "
+        "aggregate-function constructor (all control-flow paths, as_separate_validity inlined) on every run and all pass by "
+        "kernel evaluation — removing a defensive copy breaks the proof. Hidden state: definitional in the cube model; for "
+        "the real code the harness byte-compares every argument before/after construction and calculate, checks results for "
+        "shared memory, compares calculate(list)[i] with calculate([f])[0] over all permutations, repeated calls and re-used "
+        "function objects, and snapshots receivers/arguments of the non-mutating index methods. Partial: fill/reduce methods "
+        "and index methods are not translated; global interpreter state is outside the model.",
+        "Trusted: Lean kernel; tools/translate.py's classification of NumPy expressions into alias / fresh (views vs copies).",
+        "Lean 4 proof (sound alias analysis on translator-regenerated constructor programs) + byte-level purity harness",
+        "DESIGN.md §5 C17"),
+    "C18": (
+        "Lean 4 theorems: for ANY per-bin functional the array cube applies it to exactly the rows of the cell and the bins "
+        "partition the rows (mixed-radix injectivity of the strided coordinates); the stddev missing rule; scale invariance "
+        "of the weighted-quantile model. Partial: NumPy's quantile/cov/corrcoef/std, square roots and rounding are "
+        "parameters; variance and weighted-quantile models are tied by correspondence on the rows of each cell; the "
+        "statistics are recomputed per cell with NumPy on the real code's outputs (oracle), formats cross-compared.",
+        "Trusted: Lean kernel + Mathlib order lemmas on Q; NumPy's per-bin statistics; float tolerance 1e-9.",
+        "Lean 4 proof (bin partition, decision logic, scale invariance; partial) + per-cell recomputation on the real code",
+        "DESIGN.md §5 C18"),
 }
 PENDING = {}
 
